@@ -311,6 +311,19 @@ pub fn op_kmers_adapt<A: HC, const K: usize>(ad: &str, arg: usize, x: &SeqSlice<
                 }
             }
         }
+        "nthcount" | "nthlast" | "nthhint" => {
+            let mut it = it;
+            let _ = it.nth(arg);
+            match ad {
+                "nthcount" => return Ok(it.count().to_string()),
+                "nthlast" => it.last().into_iter().collect(),
+                _ => {
+                    let (lo, hi) = it.size_hint();
+                    let n = it.count();
+                    return Ok(if lo <= n && hi.map_or(true, |h| n <= h) { "1".to_string() } else { "0".to_string() });
+                }
+            }
+        }
         "hint" => {
             let mut it = it;
             for _ in 0..arg {
